@@ -1348,6 +1348,23 @@ class Environment:
 ####################
 
 
+def _holds_sample_site(obj) -> bool:
+    """Does a (nested) equation parameter contain a Jaxpr with a sampling site?"""
+    if isinstance(obj, ClosedJaxpr):
+        obj = obj.jaxpr
+    if isinstance(obj, Jaxpr):
+        return any(
+            PPPrimitive.unwrap(eqn.primitive)[0] in (sample_p, adev_sample_p)
+            or _holds_sample_site(eqn.params)
+            for eqn in obj.eqns
+        )
+    if isinstance(obj, dict):
+        return any(_holds_sample_site(v) for v in obj.values())
+    if isinstance(obj, (tuple, list)):
+        return any(_holds_sample_site(v) for v in obj)
+    return False
+
+
 @dataclass
 class Seed:
     """Interpreter that eliminates probabilistic primitives with explicit randomness.
@@ -1466,6 +1483,12 @@ class Seed:
                 )
 
             else:
+                if _holds_sample_site(eqn.params):
+                    raise LoweringSamplePrimitiveToMLIRException(
+                        f"`seed` does not interpret `{eqn.primitive}`, whose body "
+                        "still contains a sampling site; evaluating it would "
+                        "draw from a hidden key."
+                    )
                 outvals = eqn.primitive.bind(*args, **params)
 
             if not eqn.primitive.multiple_results:
